@@ -8,6 +8,8 @@ pub mod c03;
 pub mod c04;
 pub mod c05;
 pub mod c06;
+pub mod c09;
+pub mod c10;
 pub mod c18;
 pub mod c19;
 
@@ -25,6 +27,8 @@ pub fn all() -> Vec<Prop> {
         Prop { id: "C04", level: "exploration", run: c04::run },
         Prop { id: "C05", level: "fault_enumeration", run: c05::run },
         Prop { id: "C06", level: "exploration", run: c06::run },
+        Prop { id: "C09", level: "exploration", run: c09::run },
+        Prop { id: "C10", level: "exploration", run: c10::run },
         Prop { id: "C18", level: "exploration", run: c18::run },
         Prop { id: "C19", level: "exploration", run: c19::run },
     ]
